@@ -60,8 +60,16 @@ func init() {
 	register(&Rule{
 		Name:  "ITER-SIBLINGS",
 		IR:    "ast",
-		Props: []string{"C03", "C06"}, // C06: the same sibling agreement is a necessary condition of the iterator algebra (Advance must land inside the range Next would enumerate)
-		Floor: 19,                     // 16 iterator types (#1) + 3 start flags (#2: keyRange, union, treeListIterator)
+		Props: []string{"C03", "C06", "C08"}, // C08: the posting-list iterator's pair only (Narrow). C06: the same sibling agreement is a necessary condition of the iterator algebra (Advance must land inside the range Next would enumerate)
+		FloorBy: map[string]int{"C08": 1},
+		Narrow: func(o *Obligation) {
+			if strings.Contains(o.Key, "ingest/compact.(*Iterator).") {
+				o.Props = []string{"C03", "C06", "C08"}
+			} else {
+				o.Props = []string{"C03", "C06"}
+			}
+		},
+		Floor: 19, // 16 iterator types (#1) + 3 start flags (#2: keyRange, union, treeListIterator)
 		Doc: "for every type implementing search.Iterator / search.TokenIterator with its own Next and Advance: the configuration fields " +
 			"(fields no method assigns) read by Next are read by Advance and those read plainly by Advance are read by Next; a bool " +
 			"start flag tested by one of them before positioning is tested by the other with the same initial positioning calls",
